@@ -34,6 +34,7 @@ type Opt struct {
 	CutFwd       int // percentage of tail calls spelt  x <- new f(...); fwd self x
 	Ctor         int // percentage of producers built by a constructor function (0 = 25)
 	Alpha        int // percentage of bound names spelt with random initial letters (a..z) instead of the fixed prefixes
+	Wide         int // percentage of capturing servers whose context is padded with 7..11 fresh unit channels
 }
 
 func DefaultOpt(r *rand.Rand) Opt {
@@ -826,6 +827,16 @@ func (g *G) program() *Program {
 		} else {
 			g.scope(func() { body = g.gen(ctx, T, g.O.Fuel, self) })
 		}
+		if len(names) == 1 && len(ctx) == 0 && g.coin(g.O.Exec) && len(FreeVars(body)) == 0 {
+			// a closed value as a function run by exec: its channel is called exec<i>
+			g.nFn++
+			fn := fmt.Sprintf("execf%d", g.nFn)
+			g.P.Funcs = append(g.P.Funcs, &Func{Name: fn, Ret: T, Body: body})
+			g.P.Execs = append(g.P.Execs, fn)
+			g.feat("exec-value")
+			avail = append(avail, Var{fmt.Sprintf("exec%d", len(g.P.Execs)), T})
+			continue
+		}
 		g.P.Procs = append(g.P.Procs, &Proc{Names: names, T: T, Body: body})
 		for _, n := range names {
 			avail = append(avail, Var{n, T})
@@ -1089,6 +1100,13 @@ func (g *G) constructor(A, U *Ty, fuel int, a string) (func(*Term) *Term, string
 // captured channel (each copy consumes its own copies of them).
 func (g *G) captureServer(ctx []Var, A *Ty, fuel int, self string) *Term {
 	m := A.M
+	ctx, wrapPad := g.padCtx(ctx, m)
+	t := g.captureServer0(ctx, A, fuel, self)
+	return wrapPad(t)
+}
+
+func (g *G) captureServer0(ctx []Var, A *Ty, fuel int, self string) *Term {
+	m := A.M
 	g.splits++
 	S := With(m, Branch{L: "go", T: Unit(m)})
 	g.nFn++
@@ -1130,6 +1148,11 @@ func (g *G) captureServer(ctx []Var, A *Ty, fuel int, self string) *Term {
 // without ever being used: the drop request reaches a parked process with several free
 // names (positive and negative ones) and must be passed on to each of them.
 func (g *G) captureDrop(ctx []Var, A *Ty, fuel int, self string) *Term {
+	ctx, wrapPad := g.padCtx(ctx, A.M)
+	return wrapPad(g.captureDrop0(ctx, A, fuel, self))
+}
+
+func (g *G) captureDrop0(ctx []Var, A *Ty, fuel int, self string) *Term {
 	m := A.M
 	S := With(m, Branch{L: "go", T: Unit(m)})
 	g.nFn++
@@ -1195,4 +1218,28 @@ func (g *G) splitFwd(x Var, A *Ty, fuel int, self string) *Term {
 		return &Term{Op: "split", X: g.pol(x.N, x.T), Y: s1, Z: s2, Cont: &Term{Op: "new", Y: y, Body: g.cutCall(id.Name, []string{keep}), Cont: &Term{Op: "new", Y: u, Body: g.cutCall(fn, []string{other}), Cont: &Term{Op: "wait", X: u, Cont: &Term{Op: "fwd", X: g.pol(g.selfRef(self), A), Y: g.pol(y, A)}}}}}
 	}
 	return &Term{Op: "split", X: g.pol(x.N, x.T), Y: s1, Z: s2, Cont: &Term{Op: "new", Y: u, Body: g.cutCall(fn, []string{other}), Cont: &Term{Op: "wait", X: u, Cont: fw}}}
+}
+
+// padCtx cuts 7..11 fresh unit channels of mode m and adds them to ctx: the process that
+// captures the context then holds more than eight free names.
+func (g *G) padCtx(ctx []Var, m Mode) ([]Var, func(*Term) *Term) {
+	if !g.coin(g.O.Wide) {
+		return ctx, func(t *Term) *Term { return t }
+	}
+	g.feat("wide-capture")
+	n := 7 + g.R.Intn(5)
+	out := append([]Var(nil), ctx...)
+	var names []string
+	for i := 0; i < n; i++ {
+		e := g.fresh("e")
+		names = append(names, e)
+		out = append(out, Var{e, Unit(m)})
+	}
+	g.R.Shuffle(len(out), func(i, j int) { out[i], out[j] = out[j], out[i] })
+	return out, func(t *Term) *Term {
+		for i := len(names) - 1; i >= 0; i-- {
+			t = &Term{Op: "new", Y: names[i], Ann: Unit(m), Body: &Term{Op: "close", X: "self"}, Cont: t}
+		}
+		return t
+	}
 }
